@@ -10,6 +10,8 @@
   residual-form / loss-form / gradient-form / projection-order / exactly-once
                    the loss LocalInference descends on is the stated one and the gradient is its derivative (C04's rules
                    applied to this copy): a wrong gradient makes the descent fit worse than its uniform start
+  feasibility-form   the quantity LocalInference compares with its fixed threshold is, in every oracle class, the plain mean over
+                   overlapping region pairs of the L1 gap between their marginals on the shared attributes (same unit in all siblings)
   returns-own-iterate   estimation stores the (parameters, marginals) the inner loop returned
 Not decided: fit no worse than uniform, exactness on disjoint cliques, feasibility tolerance (numeric).
 """
@@ -135,6 +137,8 @@ def run(ctx):
     check_loss(ctx, methods['_marginal_loss'])
     search_loop(ctx, setup, action='append')
 
+    check_feasibility(ctx, classes)
+
     # ---- estimate stores what the inner loop returned ----------------------------------------------
     md = methods.get('mirror_descent')
     if md is None:
@@ -159,3 +163,37 @@ def run(ctx):
     ctx.ob('returns-own-iterate', md, unpack, ok,
            'the model must receive the (parameters, marginals) returned by the inner loop: potentials <- %s, marginals <- %s'
            % (stores.get('self.model.potentials'), stores.get('self.model.marginals')))
+
+
+def check_feasibility(ctx, classes):
+    """primal_feasibility of every oracle class: mean over pairs of ||x - y||_1, nothing else"""
+    repo = ctx.repo
+    for cname in sorted(classes):
+        rel = resolve_class(repo, cname)
+        fi = repo.methods(rel, cname).get('primal_feasibility')
+        if fi is None:
+            continue
+        ctx.analysed(fi)
+        accs = [s for s in ast.walk(fi.node) if isinstance(s, ast.AugAssign) and isinstance(s.op, ast.Add) and isinstance(s.target, ast.Name)]
+        defs = {s.targets[0].id: s.value for s in ast.walk(fi.node) if isinstance(s, ast.Assign) and len(s.targets) == 1 and isinstance(s.targets[0], ast.Name)}
+        acc = cnt = None
+        for a in accs:
+            v = defs.get(U(a.value), a.value) if isinstance(a.value, ast.Name) else a.value
+            if isinstance(v, ast.Call) and U(v.func) == 'np.linalg.norm' and len(v.args) == 2 and U(v.args[1]) == '1' \
+                    and isinstance(v.args[0], ast.BinOp) and isinstance(v.args[0].op, ast.Sub):
+                acc = a.target.id
+            elif isinstance(a.value, ast.Constant) and a.value.value == 1:
+                cnt = a.target.id
+        rets = [r for r in ast.walk(fi.node) if isinstance(r, ast.Return) and r.value is not None]
+        ok = acc is not None and cnt is not None and bool(rets)
+        forms = []
+        for r in rets:
+            t = U(r.value).replace(' ', '')
+            forms.append(t)
+            if t in ('0', '0.0'):
+                continue
+            if t not in ('%s/%s' % (acc, cnt), '0if%s==0else%s/%s' % (cnt, acc, cnt)):
+                ok = False
+        ctx.ob('feasibility-form', fi, rets[-1] if rets else fi.node, ok,
+               '%s.primal_feasibility must return the mean L1 gap `%s / %s` in records (LocalInference stops its consistency sweeps '
+               'when it drops below the fixed threshold 1.0); returns %s' % (cname, acc, cnt, forms))
